@@ -44,7 +44,7 @@ class AnyFileSearcher(AbstractSearcher):
                 continue
 
             try:
-                fileTime = os.stat(f)[8]
+                fileTime = os.stat(f).st_mtime
 
             except OSError:
                 raise error.PySmiSearcherError('failure opening compiled file %s: %s' % (f, sys.exc_info()[1]),
